@@ -91,6 +91,11 @@ pub fn gen_c18(seed: u64, tier: Tier) -> Scenario {
                                 g(b, a % b)
                             }
                         }
+                        // chunk a multiple of the input rate: both neighbours then resolve to the same input block
+                        if rng.chance(0.5) {
+                            c.config.chunk = c.config.rate_in.clamp(1, 2048);
+                            c.config.sub_chunks = 1;
+                        }
                         let (ri, ro) = (c.config.rate_in, c.config.rate_out + 1);
                         let d = g(ri, ro);
                         if ri / d <= 200 && ro / d <= 200 {
